@@ -255,9 +255,10 @@ def first_missing(v, prefix='', depth=0):
   return None
 
 
-def check_member_safe(node, key, value, field, problems, where, tolerate_partial=False):
+def check_member_safe(node, key, value, field, problems, where, tolerate_partial=False,
+                      use_flags=True):
   spec = field.value
-  partial = tolerate_partial or effective_partial(node)
+  partial = tolerate_partial or (use_flags and effective_partial(node))
   if is_missing(value):
     if not partial and not spec.has_default:
       problems.append(('missing-required', f'{where}[{key!r}] is missing and the '
@@ -336,9 +337,11 @@ def reached_unconstrained(root, keys):
   return False
 
 
-def schema_ok_nodes(forest, counters=None, tolerate=None):
+def schema_ok_nodes(forest, counters=None, tolerate=None, use_flags=True):
   """schema_ok with a per-node tolerance: tolerate(ridx, keys, node) -> bool says
-  whether `node` was explicitly made partial (beyond its allow_partial flags)."""
+  whether `node` was explicitly made partial (beyond its allow_partial flags;
+  use_flags=False: the allow_partial flags of the node and its ancestors are
+  not consulted at all)."""
   problems = []
   for ridx, keys, node in typed_nodes(forest):
     if counters is not None:
@@ -356,7 +359,7 @@ def schema_ok_nodes(forest, counters=None, tolerate=None):
       for k, v in items:
         if counters is not None:
           counters['schema_ok_members'] += 1
-        check_member_safe(node, k, v, lspec.element, problems, where, tol)
+        check_member_safe(node, k, v, lspec.element, problems, where, tol, use_flags)
       continue
     if schema is None:
       continue
@@ -373,10 +376,10 @@ def schema_ok_nodes(forest, counters=None, tolerate=None):
       if field is None:
         problems.append(('undeclared-key', f'{where}: key {k!r} is not declared'))
         continue
-      check_member_safe(node, k, v, field, problems, where, tol)
+      check_member_safe(node, k, v, field, problems, where, tol, use_flags)
     for kspec, field in schema.fields.items():
       if isinstance(kspec, T.ConstStrKey) and kspec.text not in present:
-        if not (tol or effective_partial(node)) and not field.value.has_default:
+        if not (tol or (use_flags and effective_partial(node))) and not field.value.has_default:
           problems.append(('missing-required',
                            f'{where}: required key {kspec.text!r} is absent'))
   return problems
